@@ -7,6 +7,19 @@ def emit(e):
     return ("expr", call("emit", e))
 
 
+def meth(r, m, *args, **kw):
+    return ("meth", r, m, list(args), sorted(kw.items()))
+
+
+def S(x):
+    return ("str", x)
+
+
+def I(x):
+    return ("int", x)
+
+
+NONE = ("none",)
 BIG = 1 << 40
 CASES = [
     # F6: slice bounds beyond i32 (Python and the reference clamp)
@@ -42,4 +55,63 @@ CASES = [
                          ("aug", ("tvar", "a"), "+", ("list", [("int", 2)])), emit(("var", "b")),
                          ("assign", ("tvar", "t"), ("tuple", [("int", 1)])), ("assign", ("tvar", "u"), ("var", "t")),
                          ("aug", ("tvar", "t"), "+", ("tuple", [("int", 2)])), emit(("var", "u"))]),
+    # ---- strings (MiniStar stage 2) ----
+    # repr of strings: Starlark quoting and escapes (string/repr.rs); the 20-character texts go through the SIMD chunk loop
+    ("str-repr-escapes", [emit(call("repr", S('a"b\\c\n\t\r\x01\x7f\''))),
+                          emit(call("repr", S("0123456789abcdef\n0123"))), emit(call("repr", S('0123456789abcdefghij"'))),
+                          emit(call("repr", S(""))), emit(call("str", ("list", [S("a"), ("tuple", [S("b")]), ("dict", [(S("k"), NONE)])]))),
+                          emit(("bin", "%", S("%r|%s"), ("tuple", [S("x\ty"), S("x\ty")]))),
+                          emit(meth(S("{!r} {0!s} {a!r}"[:0] + "{!r} {a!r}"), "format", S("q"), a=("list", [S("'")])))], {"nopy": True}),
+    # repr/str of values without strings coincide with Python
+    ("str-repr-shared", [emit(call("repr", ("list", [I(1), ("tuple", [I(-2)]), ("tuple", []), ("dict", [(I(3), ("list", []))]), NONE, ("bool", True)]))),
+                         emit(call("str", ("tuple", [I(1), I(2)]))), emit(call("str", I(-(1 << 70)))), emit(call("str", S("plain")))]),
+    # split / rsplit: separators, maxsplit, whitespace runs
+    ("str-split", [emit(meth(S("a,b,,c,"), "split", S(","))), emit(meth(S("a,b,,c,"), "split", S(","), I(2))), emit(meth(S("a,b,,c,"), "rsplit", S(","), I(2))),
+                   emit(meth(S("a,b"), "split", S(","), I(0))), emit(meth(S("a,b"), "split", S(","), I(-1))), emit(meth(S("aaa"), "split", S("aa"))),
+                   emit(meth(S("aaa"), "rsplit", S("aa"))), emit(meth(S("  a  b\tc \n"), "split")), emit(meth(S("  a  b\tc \n"), "split", NONE, I(1))),
+                   emit(meth(S("  a  b\tc \n"), "rsplit", NONE, I(1))), emit(meth(S("  a  b "), "split", NONE, I(0))), emit(meth(S("   "), "split")),
+                   emit(meth(S(""), "split", S(","))), emit(meth(S("a\nb\r\nc\rd\n"), "splitlines")), emit(meth(S("a\nb\r\nc\rd\n"), "splitlines", ("bool", True))),
+                   emit(meth(S("\n\n"), "splitlines")), emit(meth(S("-"), "join", meth(S("a,b,,c"), "split", S(","))))]),
+    # find / index / count with windows
+    ("str-find", [emit(("list", [meth(S("bonbon"), "find", S("on")), meth(S("bonbon"), "find", S("on"), I(2)), meth(S("bonbon"), "find", S("on"), I(2), I(5)),
+                                 meth(S("bonbon"), "rfind", S("on")), meth(S("bonbon"), "rfind", S("on"), NONE, I(4)), meth(S("bonbon"), "find", S(""), I(6)),
+                                 meth(S("bonbon"), "find", S(""), I(7)), meth(S("bonbon"), "count", S("")), meth(S("abababa"), "count", S("aba")),
+                                 meth(S("bonbon"), "find", S("b"), I(-3)), meth(S("bonbon"), "index", S("nb")), meth(S("bonbon"), "count", S("on"), I(-100), I(100))])),
+                  emit(("list", [meth(S("hello"), "startswith", ("tuple", [S("x"), S("he")])), meth(S("hello"), "endswith", S("llo"), I(0), I(-1)),
+                                 meth(S("hello"), "startswith", S("ell"), I(1)), meth(S("hello"), "startswith", ("tuple", [])), meth(S("hello"), "endswith", S(""), I(5))])),
+                  ("expr", meth(S("bonbon"), "rindex", S("on"), I(2), I(5)))]),
+    # case mapping, classes, strip, replace, partition
+    ("str-misc", [emit(("list", [meth(S("hello wORLD x1y"), "title"), meth(S("hELLO"), "capitalize"), meth(S("aB1_"), "upper"), meth(S("aB1_"), "lower"),
+                                 meth(S(" \t x \n"), "strip"), meth(S("xxhixx"), "lstrip", S("x")), meth(S("xxhixx"), "rstrip", S("x")), meth(S("abc"), "strip", S("")),
+                                 meth(S("abc"), "replace", S(""), S("-")), meth(S("abc"), "replace", S(""), S("-"), I(2)), meth(S("banana"), "replace", S("a"), S("o"), I(2)),
+                                 meth(S("aaa"), "replace", S("aa"), S("b")), meth(S("abc"), "removeprefix", S("ab")), meth(S("abc"), "removesuffix", S("bc")),
+                                 meth(S("abc"), "removesuffix", S(""))])),
+                  emit(("list", [meth(S("a=b=c"), "partition", S("=")), meth(S("a=b=c"), "rpartition", S("=")), meth(S("abc"), "partition", S("=")),
+                                 meth(S("abc"), "rpartition", S("="))])),
+                  emit(("list", [meth(S("12"), "isdigit"), meth(S(""), "isdigit"), meth(S("a1"), "isalnum"), meth(S("a_"), "isalnum"), meth(S(" \t\n"), "isspace"),
+                                 meth(S("aB"), "islower"), meth(S("a1"), "islower"), meth(S("1"), "islower"), meth(S("A1"), "isupper"), meth(S("Hello World"), "istitle"),
+                                 meth(S("Hello world"), "istitle")])),
+                  emit(("list", [call("ord", S("a")), call("chr", I(65)), call("min", S("b"), S("a")), call("max", ("list", [S("b"), S("B")])),
+                                 call("sorted", ("list", [S("b"), S(""), S("B"), S("a")])), call("list", meth(S("abc"), "elems")),
+                                 call("enumerate", meth(S("ab"), "elems")), call("zip", meth(S("ab"), "elems"), meth(S("xyz"), "elems"))]))]),
+    # "%" formatting
+    ("str-percent", [emit(("bin", "%", S("%s %d %x %o %X %% %r"), ("tuple", [S("a"), I(-5), I(255), I(-8), I(255), ("list", [I(1)])]))),
+                     emit(("bin", "%", S("%s"), I(3))), emit(("bin", "%", S("%s"), ("list", [I(1), I(2)]))), emit(("bin", "%", S("%s"), ("tuple", [("tuple", [I(1), I(2)])]))),
+                     emit(("bin", "%", S("x%sy"), ("tuple", [S("a")]))), emit(("bin", "%", S("%d%%"), I(1 << 70))), emit(("bin", "%", S("%x"), I(-(1 << 31)))),
+                     emit(("bin", "%", S("100%%"), ("tuple", []))),
+                     ("expr", ("bin", "%", S("x%sy"), ("tuple", [I(1), I(2)])))]),
+    # str.format
+    ("str-format", [emit(meth(S("a{}b{}c"), "format", I(1), S("x"))), emit(meth(S("({1}, {0}, {1})"), "format", S("zero"), I(1))),
+                    emit(meth(S("a{x}b{y}c{}"), "format", I(1), x=I(2), y=NONE)), emit(meth(S("{{}} {{{}}}"), "format", I(1))),
+                    emit(meth(S("{!r} {!s} {0}"[:9]), "format", ("list", [I(1)]), I(2))), emit(meth(S("{}"), "format", I(1), I(2))),
+                    emit(meth(S("{a}{a}"), "format", a=("tuple", [I(1)]))), emit(meth(S("no fields"), "format")),
+                    ("expr", meth(S("{0} {}"), "format", I(1), I(2)))]),
+    # candidate findings: an empty separator is an error in the shared meaning (Python: ValueError; Starlark spec: "split: empty separator")
+    ("str-split-empty-separator", [emit(meth(S("abc"), "split", S("")))]),
+    ("str-rsplit-empty-separator", [emit(meth(S("abc"), "rsplit", S(""), I(1)))]),
+    # candidate findings: windows of find/count/startswith with an empty needle (convert_str_indices short-cuts before clamping)
+    ("str-find-start-beyond-empty-string", [emit(("list", [meth(S(""), "find", S(""), I(1), I(-1)), meth(S(""), "count", S(""), I(1), I(-1)),
+                                                           meth(S(""), "startswith", S(""), I(1), I(-1))]))]),
+    ("str-find-negative-window-clamped", [emit(("list", [meth(S("abc"), "find", S(""), I(-5), I(-100)), meth(S("abc"), "count", S(""), I(-5), I(-100)),
+                                                         meth(S("abc"), "endswith", S(""), I(-5), I(-100))]))]),
 ]
